@@ -69,6 +69,18 @@ theorem logger_terminates (blocks : List Bytes) {s s'} (h : Reach (loggerCfg blo
 theorem not_waiting_truncates_record : ∃ s, Reach C11.badCfg s ∧ s.mainReturned = true ∧ s.handled 0 ≠ C11.badCfg.out :=
   C11.not_waiting_loses_output
 
+/-- However the input is chunked: two chunkings of the same byte stream give the same standard
+    output and the same record. -/
+theorem chunking_irrelevant (b1 b2 : List Bytes) (h : b1.flatten = b2.flatten) :
+    (copyLoop b1).1 = (copyLoop b2).1 ∧ (copyLoop b1).2.flatten = (copyLoop b2).2.flatten := by
+  rw [(stdout_eq_input b1).1, (stdout_eq_input b1).2, (stdout_eq_input b2).1, (stdout_eq_input b2).2]
+  exact ⟨h, h⟩
+
+/-- Once the program has ended, the record and the standard output hold the same bytes. -/
+theorem exit_record_eq_stdout (blocks : List Bytes) {s} (h : Reach (loggerCfg blocks) s)
+    (hr : s.mainReturned = true) : (s.handled 0).flatten = (copyLoop blocks).1 := by
+  rw [exit_record_complete blocks h hr, (stdout_eq_input blocks).1]
+
 /-! Non-vacuity (tests). -/
 example : copyLoop [[1, 2], [], [3]] = ([1, 2, 3], [[1, 2], [3]]) := by decide
 
